@@ -216,6 +216,8 @@ impl Energy {
     pub fn is_electricity(&self) -> bool {
         match self {
             Energy::Aux(_) => true,
+            // Output energy components have no carrier
+            Energy::Out(_) => false,
             _ => self.carrier() == Carrier::ELECTRICIDAD,
         }
     }
